@@ -432,6 +432,77 @@ def twin_cases(run: lib.Run) -> None:
                             return
 
 
+STRING_TWINS = [
+    ("two unpaired surrogates", "file-\udcff", "file-\udcfe"),
+    ("unpaired surrogate vs question mark", "file-\udcff", "file-?"),
+    ("unpaired surrogate vs U+FFFD", "a\ud800b", "a\ufffdb"),
+    ("high vs low unpaired surrogate", "\ud83d", "\ude00"),
+    ("NUL vs nothing", "ab\x00", "ab"),
+    ("NFC vs NFD", "caf\u00e9", "cafe\u0301"),
+    ("case", "Alice", "alice"),
+    ("trailing blank", "alice", "alice "),
+    ("astral vs BMP look-alike", "\U0001d5ba", "a"),
+    ("long common prefix, last character", "p" * 5000 + "x", "p" * 5000 + "y"),
+    ("long common prefix and suffix, middle character", "p" * 3000 + "x" + "s" * 3000, "p" * 3000 + "y" + "s" * 3000),
+    ("same length, digits", "id-" + "0" * 200 + "1", "id-" + "0" * 200 + "2"),
+    ("backslash escape vs character", "a\\u0041", "aA"),
+    ("quote", 'a"b', "a'b"),
+]
+TWIN_POLICY = {"algorithm": "deny-overrides", "rules": [
+    {"id": "same-name", "effect": "permit", "actions": ["read"], "resource": {"type": "doc"},
+     "condition": {"==": [{"attr": "context.probe"}, {"attr": "context.expected"}]}}]}
+
+
+def string_twins(run: lib.Run) -> None:
+    """two requests that differ in ONE string only — strings that are close under some encoding, normalisation, truncation or escaping
+    (unpaired surrogates, U+FFFD, NUL, NFC/NFD, case, blanks, a 5000-character common prefix …) — at each position of the request (subject
+    id, role, resource id, resource attribute, context value; the context also carries the expected string, so the policy itself
+    mentions none of them and stays cacheable): one cached engine answers first, second, first, second in both orders, next to an
+    uncached engine.  The decisions differ (permit / deny), so a shared cache entry shows."""
+    positions = {
+        "context value": lambda s1, s: req(ctx={"probe": s, "expected": s1}),
+        "resource attribute": lambda s1, s: {**req(ctx={"expected": s1}), "rattrs": {"name": s}},
+        "subject id": lambda s1, s: {**req(ctx={"expected": s1}), "sid": s},
+        "resource id": lambda s1, s: {**req(ctx={"expected": s1}), "rid": s},
+        "role": lambda s1, s: {**req(ctx={"expected": s1}), "roles": [s]},
+    }
+    attr_of = {"context value": "context.probe", "resource attribute": "resource.attrs.name", "subject id": "subject.id",
+               "resource id": "resource.id", "role": None}
+    for pos, mk in positions.items():
+        pol = copy.deepcopy(TWIN_POLICY)
+        if attr_of[pos] is None:
+            pol["rules"][0]["condition"] = {"in": [{"attr": "context.expected"}, {"attr": "subject.roles"}]}
+        else:
+            pol["rules"][0]["condition"] = {"==": [{"attr": attr_of[pos]}, {"attr": "context.expected"}]}
+        plain = Guard(copy.deepcopy(pol))
+        for name, s1, s2 in STRING_TWINS:
+            for a, b in ((s1, s2), (s2, s1)):
+                qa, qb = mk(a, a), mk(a, b)          # qa: the probe equals the expected string (permit); qb: its twin (deny)
+                for cap, ttl, kind in ((2048, None, "lru"), (2, 5, "lru"), (0, 5, "dict")):
+                    for order in ((qa, qb, qa, qb), (qb, qa, qb, qa)):
+                        cache = DefaultInMemoryCache(maxsize=cap) if kind == "lru" else DictCache()
+                        g = Guard(copy.deepcopy(pol), cache=cache, cache_ttl=ttl)
+                        for step, q in enumerate(order):
+                            try:
+                                got = decision(g, q)
+                            except Exception as e:  # noqa: BLE001
+                                got = {"raised": type(e).__name__}
+                            try:
+                                want = decision(plain, q)
+                            except Exception as e:  # noqa: BLE001
+                                want = {"raised": type(e).__name__}
+                            run.case(["string-twin", pos, name, a == s1, cap, ttl, kind, order is not None and order[0] is qa, step], True)
+                            run.count("string-twins")
+                            if got != want:
+                                run.spec_failures.append({"part": "string-twins", "pair": name, "position": pos, "strings": [ascii(a), ascii(b)],
+                                                          "step": step, "maxsize": cap, "ttl": ttl, "cache": kind,
+                                                          "request": json.loads(json.dumps(q, default=repr).encode("ascii", "backslashreplace").decode()),
+                                                          "cached": got, "uncached": want,
+                                                          "spec": "a cached engine returned a decision different from the uncached engine holding the same policy "
+                                                                  "(two requests that differ in one string share a cache entry)"})
+                                return
+
+
 def literal_twins() -> list:
     """documents that differ only in the TYPE of a literal json.dumps cannot write (a date) vs its text form: different documents"""
     from datetime import date
@@ -1009,6 +1080,7 @@ def check(run: lib.Run, audit: dict) -> int:
     check_canon_model(run, real_keys)
     run_cases(run)
     twin_cases(run)
+    string_twins(run)
     shared_cache_twins(run)
     shared_cache_replacements(run)
     changing_verdicts(run)
@@ -1065,9 +1137,9 @@ def replay(run: lib.Run, audit: dict, path: str) -> int:
     if c.get("part") == "history":
         hist = [tuple(o) for o in c["history"]]
         print("now:", run_history(hist, c["maxsize"], c["ttl"], c["cache"], False), run_history(hist, c["maxsize"], c["ttl"], c["cache"], True))
-    if c.get("part") in ("overlapping evaluations", "twin-policies", "concurrent-evaluations", "changing-verdicts"):
+    if c.get("part") in ("overlapping evaluations", "twin-policies", "concurrent-evaluations", "changing-verdicts", "string-twins"):
         before = len(run.spec_failures)
-        for fn in {"changing-verdicts": (changing_verdicts,), "overlapping evaluations": (overlap_cases,), "twin-policies": (twin_cases, shared_cache_twins), "concurrent-evaluations": (gather_cases,)}[c["part"]]:
+        for fn in {"changing-verdicts": (changing_verdicts,), "overlapping evaluations": (overlap_cases,), "twin-policies": (twin_cases, shared_cache_twins), "string-twins": (string_twins,), "concurrent-evaluations": (gather_cases,)}[c["part"]]:
             fn(run)
         now = run.spec_failures[before:]
         print("now:", json.dumps(now[:1], default=str)[:1500] if now else "no difference between the cached and the uncached engine")
